@@ -396,6 +396,12 @@ func checkReplace(c *core.Ctx, v cty.Value, model []member, r *core.Rand, w stri
 	for t := 0; t < tries; t++ {
 		m := &model[r.Intn(len(model))]
 		nv := replacement(r, m)
+		if _, amb, _ := libCanon(v, libPath(m.steps)); amb {
+			// the member sits in a set next to a member it cannot be told apart from
+			// (two equal unknowns): no path names it, so it cannot be chosen
+			c.Count("replace:skipped-ambiguous-set-member")
+			continue
+		}
 		var expected cty.Value
 		eo := core.Guard(func() { expected = rebuild(v, m.steps, nv) })
 		if eo.Panicked {
